@@ -17,8 +17,7 @@ import Tmcg.Model.Sigma
   party's state, so statements about honest parties can quantify over arbitrary inboxes.
 
   The arithmetic is the library's: `tmcg_mpz_fspowm` / `tmcg_mpz_fpowm` on the tables built by the
-  constructors, `mpz_powm`, reductions mod q after every multiplication and addition, the clobbered
-  temporaries of the extraction phase, the stale `g^{s_ij}` cache, the order of the checks and which
+  constructors, `mpz_powm`, reductions mod q after every multiplication and addition, the cache of `g^{s_ij}`, the order of the checks and which
   of them end the call with `false`.
 -/
 namespace Tmcg.Dkg
@@ -766,10 +765,13 @@ def sumMod (q : Int) (l : List Int) (idx : List Nat) : Int :=
 /-- steps 1(d), 2, 3 and 4(a): resolve, QUAL, the share, the Feldman commitments -/
 def genResolve (G : Grp) (st : GenSt) (I : Inbox) : Except Err (GenSt × Inbox × List Op × Status) := do
   let (I1, s, sp, cm) ← genResolveGo G st (List.range st.n) I st.s st.sp st.compl
+  -- the cache `g^{s_ji}` follows every adjusted share (for the others this recomputes what
+  -- step 1(b) stored)
+  let gs ← gaList G s
   let qual := (List.range st.n).filter (fun j => !cm.contains j)
   let x := sumMod G.q s qual
   let xp := sumMod G.q sp qual
-  let st1 := { st with s := s, sp := sp, compl := cm, qual := qual, x := x, xp := xp }
+  let st1 := { st with s := s, sp := sp, gs := gs, compl := cm, qual := qual, x := x, xp := xp }
   if !qual.contains st.i then pure (st1, I1, [], .ret false)
   else if qual.length ≤ st.t then pure (st1, I1, [], .ret false)
   else if st.sfb && st.rnd then pure (st1, I1, [], .ret false)
@@ -789,7 +791,7 @@ def genReadA (G : Grp) (st : GenSt) : List Nat → Inbox → List (List Int) →
       let bad := getI st.gs j != rhs
       genReadA G st rest I1 (A.set j Aj) (if c || bad then cm ++ [j] else cm)
 
-/-- step 4(b): check equation (5) against the (possibly stale) cache, complain -/
+/-- step 4(b): check equation (5) against the cache `g^{s_ji}`, complain -/
 def genExtractCheck (G : Grp) (st : GenSt) (I : Inbox) : Except Err (GenSt × Inbox × List Op × Status) := do
   let (I1, A, cm) ← genReadA G st (List.range st.n) I st.A []
   let compl := sortUniq st.n cm
